@@ -73,8 +73,8 @@ def record_run(params: dict, *, tid: int, workload=None, exact=None, mode="obs",
         cfg = {"np": ex.num_pools, "cpucap": ex.cpus_per_pool, "ramcap": ramcap, "ramcapr": ramcapr,
                "oc": bool(full["allow_memory_overcommit"]), "multi": bool(full["multi_operator_containers"]),
                "tps": tps, "U": U, "mode": mode, "suspNum": tps, "suspDen": 20 * U,
-               "minOneTick": True, "minSuspTick": True, "checkPool": True, "reconcileOnSuspend": True,
-               "policy": algo, "duration_ticks": int(full["duration"] * tps),
+               "minOneTick": True, "minSuspTick": True, "checkPool": True, "reconcileOnSuspend": True, "requeueShortSuspension": True,
+               "policy": "starter" if algo == "verifstarter" else algo, "duration_ticks": int(full["duration"] * tps),
                "dur": ratio(full["duration"])[1]}
         events.insert(0, {"ev": "hdr", "tid": tid, "mode": mode, "cfg": cfg, "wl": [], "meta": meta or {"d": "-"}})
 
@@ -183,8 +183,8 @@ def record_run(params: dict, *, tid: int, workload=None, exact=None, mode="obs",
                           "cfg": {"np": full["num_pools"], "cpucap": full["cpus_per_pool"], "ramcap": ramcap, "ramcapr": ramcapr,
                                   "oc": bool(full["allow_memory_overcommit"]), "multi": bool(full["multi_operator_containers"]),
                                   "tps": tps, "U": U, "mode": mode, "suspNum": tps, "suspDen": 20 * U,
-                                  "minOneTick": True, "minSuspTick": True, "checkPool": True, "reconcileOnSuspend": True,
-                                  "policy": algo, "duration_ticks": int(full["duration"] * tps), "dur": ratio(full["duration"])[1]}})
+                                  "minOneTick": True, "minSuspTick": True, "checkPool": True, "reconcileOnSuspend": True, "requeueShortSuspension": True,
+                                  "policy": "starter" if algo == "verifstarter" else algo, "duration_ticks": int(full["duration"] * tps), "dur": ratio(full["duration"])[1]}})
     pipes = [[(-1 if p.runtime_status().arrival_tick is None else p.runtime_status().arrival_tick),
               (-1 if p.runtime_status().finish_tick is None else p.runtime_status().finish_tick)] for p in idx.pipes]
     end = {"ev": "end", "tid": tid, "t": st["t"], "stats": stats_json(stats) if stats is not None else {"none": 1},
